@@ -2,9 +2,11 @@
 (* The STARK protocol at the level of its integer parameters (property C01) and of its transcript (property C04).
 
    Part 1 - parameters.  A statement is a tuple
-       t = [ln, width, degs, cycles, pcol, k, nasserts, q, lb, grind, fold, rem, ext, bits]
+       t = [ln, width, degs, cycles, pcol, k, nasserts, q, lb, grind, fold, rem, ext, bits, auxd, auxr, lag, nauxa]
    (trace length 2^ln, number of columns, per-column constraint degree, periodic cycle lengths and their use,
-   transition exemptions, number of assertions, proof options, extension degree, field size).  Admissible(t)
+   transition exemptions, number of assertions, proof options, extension degree, field size; auxiliary segment: degrees
+   of its running-sum (1) / running-product (2) columns, number of random elements, Lagrange kernel column 0/1 (one
+   more column, the last), number of auxiliary assertions).  Admissible(t)
    transcribes the quantifier of C01; the operators below transcribe every derived quantity and every guard that
    prover, serialization and verifier evaluate on these integers on the honest path.  HonestPathOK(t) states that
    no guard fails; the design-level theorem checked by TLC is  Admissible(t) => HonestPathOK(t).             *)
@@ -39,12 +41,20 @@ WellFormedSchedule(t) ==
 \* ---- AIR context (TransitionConstraintDegree, AirContext) ------------------------------------------------
 NumCycles(t, i)  == IF t.pcol[i] > 0 THEN 1 ELSE 0
 MinBlowup(t, i)  == Max2(NextPow2(t.degs[i] + NumCycles(t, i) - 1), 2)
-CeBlowup(t)      == FoldLeft(LAMBDA a, i : Max2(a, MinBlowup(t, i)), 0, [i \in 1..t.width |-> i])
+\* auxiliary segment: Len(t.auxd) constrained columns plus the Lagrange kernel column (its constraints are the library's own)
+NAux(t)          == Len(t.auxd)
+AuxW(t)          == NAux(t) + t.lag
+TotalWidth(t)    == t.width + AuxW(t)
+AuxMinBlowup(t, j)  == Max2(NextPow2(t.auxd[j] - 1), 2)
+AuxEvalDegree(t, j) == t.auxd[j] * (N(t) - 1)
+CeBlowup(t)      == Max2(FoldLeft(LAMBDA a, i : Max2(a, MinBlowup(t, i)), 0, [i \in 1..t.width |-> i]),
+                         FoldLeft(LAMBDA a, j : Max2(a, AuxMinBlowup(t, j)), 0, [j \in 1..NAux(t) |-> j]))
 EvalDegree(t, i) == t.degs[i] * (N(t) - 1)
                     + (IF t.pcol[i] > 0 THEN (N(t) \div t.cycles[t.pcol[i]]) * (t.cycles[t.pcol[i]] - 1) ELSE 0)
-MaxEvalDegree(t) == FoldLeft(LAMBDA a, i : Max2(a, EvalDegree(t, i)), 0, [i \in 1..t.width |-> i])
-MaxExemptions(t) == FoldLeft(LAMBDA a, i : Min2(a, N(t) * CeBlowup(t) - 1 + N(t) - EvalDegree(t, i)), N(t) \div 2 + 1,
-                             [i \in 1..t.width |-> i])
+\* evaluation degrees of all transition constraints, main then auxiliary
+EvalDegrees(t)   == [i \in 1..t.width |-> EvalDegree(t, i)] \o [j \in 1..NAux(t) |-> AuxEvalDegree(t, j)]
+MaxEvalDegree(t) == FoldLeft(LAMBDA a, d : Max2(a, d), 0, EvalDegrees(t))
+MaxExemptions(t) == FoldLeft(LAMBDA a, d : Min2(a, N(t) * CeBlowup(t) - 1 + N(t) - d), N(t) \div 2 + 1, EvalDegrees(t))
 CompositionDegree(t)  == MaxEvalDegree(t) - (N(t) - t.k)          \* degree of the constraint composition polynomial
 \* number of columns the composition polynomial is split into (Fixed: floor(d/n) + 1; before the fix: ceil(d/n))
 NumCompositionColsV(t, Fixed) == IF Fixed THEN Max2(1, CompositionDegree(t) \div N(t) + 1)
@@ -74,11 +84,32 @@ StepsOfA(a, n) == CASE a.kind = "single"   -> {a.first}
                     [] a.kind = "sequence" -> {a.first + a.stride * j : j \in 0..(a.count - 1)}
 AssertedCells(t) == UNION {{<<Asserts(t)[x].col, s>> : s \in StepsOfA(Asserts(t)[x], N(t))} : x \in 1..t.nasserts}
 
+\* auxiliary assertions: the first t.nauxa of three templates; the last two need a running-sum column (their values are
+\* r * public prefix sum), a running-product column can only be asserted at step 0 (value 1)
+SumCol(t) == IF \E j \in 1..NAux(t) : t.auxd[j] = 1 THEN (CHOOSE j \in 1..NAux(t) : t.auxd[j] = 1 /\ \A x \in 1..(j - 1) : t.auxd[x] # 1) - 1 ELSE 0 - 1
+AuxAssertTemplates(t) ==
+    LET n == N(t)  sc == SumCol(t)
+    IN  << AsrT("single", IF sc = 0 /\ NAux(t) >= 2 THEN 1 ELSE 0, 0, 0, 1),
+           AsrT("single", sc, n - 1, 0, 1),
+           AsrT("sequence", sc, 2, 4, n \div 4) >>
+MaxAuxAsserts(t) == IF NAux(t) = 0 THEN 0 ELSE IF SumCol(t) >= 0 THEN 3 ELSE 1
+AuxAsserts(t) == SubSeq(AuxAssertTemplates(t), 1, t.nauxa)
+AuxAssertedCells(t) == UNION {{<<AuxAsserts(t)[x].col, s>> : s \in StepsOfA(AuxAsserts(t)[x], N(t))} : x \in 1..t.nauxa}
+
 (* Soundness rule for the ShapeAir family (property C02).  Constraint c reads cur[c], cur[c+1 mod w] and next[c]; the
    transition from step j to j+1 is enforced for j <= n-k-1.  Changing the single cell (c, i) of a valid trace makes the
    trace invalid iff the cell is asserted, or it is the `next` of an enforced transition (1 <= i <= n-k), or the `cur` of
    one (i <= n-k-1).  Cells of the rows n-k+1 .. n-1 that are not asserted are free.                          *)
 Violated(t, c, i) == <<c, i>> \in AssertedCells(t) \/ i <= N(t) - t.k
+\* with an auxiliary segment: the prover builds the running-sum column j from main column j % width, and the asserted value
+\* at step s is r * (claimed prefix sum up to s); changing main cell (c, i) therefore also breaks every auxiliary assertion
+\* on such a column that names a step after i (the pair of segments is invalid although the main segment alone is not)
+ViolatedMain(t, c, i) ==
+    \/ Violated(t, c, i)
+    \/ \E x \in 1..t.nauxa : LET a == AuxAsserts(t)[x]
+                              IN  t.auxd[a.col + 1] = 1 /\ a.col % t.width = c /\ \E s \in StepsOfA(a, N(t)) : s > i
+\* the same rule for a cell of a running-sum/product column; every cell of the Lagrange kernel column is determined
+ViolatedAux(t, j, i) == IF t.lag = 1 /\ j = AuxW(t) - 1 THEN TRUE ELSE <<j, i>> \in AuxAssertedCells(t) \/ i <= N(t) - t.k
 
 \* ---- what the quantifier of C01 admits -----------------------------------------------------------------
 Admissible(t) ==
@@ -89,6 +120,10 @@ Admissible(t) ==
     /\ \A c \in DOMAIN t.cycles : IsPow2(t.cycles[c]) /\ t.cycles[c] >= 2 /\ t.cycles[c] <= N(t)
     /\ t.k >= 1 /\ t.k <= N(t) \div 2 + 1 /\ t.k <= MaxExemptions(t)
     /\ t.nasserts >= 1
+    /\ t.lag \in {0, 1} /\ (t.lag = 1 => NAux(t) >= 1)                          \* the context wants one auxiliary constraint
+    /\ TotalWidth(t) <= 255 /\ t.auxr >= 0 /\ t.auxr <= 255 /\ (AuxW(t) = 0 => t.auxr = 0)
+    /\ \A j \in 1..NAux(t) : t.auxd[j] \in {1, 2} /\ AuxMinBlowup(t, j) <= B(t)
+    /\ t.nauxa >= (IF NAux(t) > 0 THEN 1 ELSE 0) /\ t.nauxa <= MaxAuxAsserts(t)
     /\ WellFormedSchedule(t)
     /\ t.q < Lde(t)                                                              \* fewer queries than LDE points
     /\ t.ext \in 1..3 /\ (t.bits = 128 => t.ext <= 2)                            \* no cubic extension of the 128-bit field
@@ -98,7 +133,7 @@ Admissible(t) ==
 \* u = number of unique query positions (1..q), an outcome of the coin
 TableLimitOK(rows, cols, Fixed) == IF Fixed THEN rows >= 1 /\ rows <= 255 /\ cols >= 1 /\ cols <= 255
                                             ELSE rows >= 1 /\ rows < 255 /\ cols >= 1 /\ cols < 255
-TraceInfoReadOK(t, Fixed) == IF Fixed THEN t.width <= 255 ELSE t.width < 255
+TraceInfoReadOK(t, Fixed) == IF Fixed THEN TotalWidth(t) <= 255 ELSE TotalWidth(t) < 255 /\ (AuxW(t) > 0 => t.auxr > 0)
 FriFoldingNeed(t) == t.fold                          \* values per FRI query row
 HonestPathOK(t, u, Fixed) ==
     /\ t.k <= MaxExemptions(t)                                                   \* set_num_transition_exemptions
@@ -109,6 +144,8 @@ HonestPathOK(t, u, Fixed) ==
     /\ u >= 1 /\ u <= 255                                                        \* num_unique_queries: u8
     /\ TraceInfoReadOK(t, Fixed)                                                 \* TraceInfo::read_from
     /\ TableLimitOK(u, t.width, Fixed)                                           \* trace queries table
+    /\ (AuxW(t) > 0 => TableLimitOK(u, AuxW(t), Fixed))                          \* auxiliary segment queries table
+    /\ t.ln + 1 <= 255                                                          \* Lagrange kernel frame length: u8
     /\ TableLimitOK(u, NumCompositionColsV(t, Fixed), Fixed)                     \* constraint queries table
     /\ \A j \in 1..NumFriLayers(t) : (N(t) \div (t.fold ^ (j - 1))) % t.fold = 0 \* FriVerifier degree guard
     /\ RemainderDomain(t) \div B(t) <= N(t) \div (t.fold ^ NumFriLayers(t))      \* remainder length <= bound
